@@ -101,6 +101,7 @@ def campaign(c):
             client = k == 10
             sid = r.bytes(r.choice([0, 1, 32])); comp = r.bytes(r.choice([0, 1, 2])); ids = [r.below(65536) for _ in range(r.below(4))]
             exts = [(r.below(65536), r.bytes(r.choice([0, 1, 5, 300]))) for _ in range(r.below(3))]
+            empties = r.choice([0, 0, 1, 2])          # extension arguments that are empty byte strings
             ver = r.choice([0x0303, 0x0301, r.below(65536)])
             use = dict(version=r.chance(1, 2), sessionid=r.chance(1, 2), ciphers=r.chance(1, 2), compression=r.chance(1, 2))
             steps = [['std::len_u8', '-=' + s(sid)], ['tls::ciphers'] + ['-=u16:%d' % x for x in ids], ['std::len_u8', '-=' + s(comp)]]
@@ -108,12 +109,12 @@ def campaign(c):
             base = len(steps)
             if client:
                 args = (['version=u16:%d' % ver] if use['version'] else []) + (['sessionid=$0'] if use['sessionid'] else []) + \
-                       (['ciphers=$1'] if use['ciphers'] else []) + (['compression=$2'] if use['compression'] else []) + ['-=$%d' % (3 + j) for j in range(len(exts))]
+                       (['ciphers=$1'] if use['ciphers'] else []) + (['compression=$2'] if use['compression'] else []) + ['-=str:-'] * empties + ['-=$%d' % (3 + j) for j in range(len(exts))]
                 steps.append(['tls::client_hello'] + args)
             else:
                 cipher, cm = r.below(65536), r.below(256)
                 args = (['version=u16:%d' % ver] if use['version'] else []) + (['sessionid=$0'] if use['sessionid'] else []) + \
-                       (['cipher=u16:%d' % cipher] if use['ciphers'] else []) + (['compression=u8:%d' % cm] if use['compression'] else []) + ['-=$%d' % (3 + j) for j in range(len(exts))]
+                       (['cipher=u16:%d' % cipher] if use['ciphers'] else []) + (['compression=u8:%d' % cm] if use['compression'] else []) + ['-=str:-'] * empties + ['-=$%d' % (3 + j) for j in range(len(exts))]
                 steps.append(['tls::server_hello'] + args)
             steps.append(['tls::message', '-=$%d' % base])
             res, req = call_both(c, steps); rep = dict(req=req[:3000])
@@ -128,6 +129,8 @@ def campaign(c):
                 else:
                     ok = ok and f.get('cipher') == str(cipher if use['ciphers'] else 0) and f.get('comp') == str(cm if use['compression'] else 0)
                 expect(c, 'tls::hello', ok, 'hello does not parse back to the supplied parts: %s' % f, rep)
+                hs = kv(parse(c, 'handshake', b))
+                expect(c, 'tls::hello-len', hs.get('rest') == '-' and hs.get('typ') == ('1' if client else '2'), 'handshake header of the hello does not declare exactly the bytes that follow', rep)
                 if ok and extbytes:
                     el = kv(parse(c, 'extlist', extbytes))
                     expect(c, 'tls::hello-ext', el.get('exts') == ','.join('%d:%s' % (e, sh_hex(d)) for e, d in exts), 'extension block does not parse', rep)
